@@ -291,6 +291,18 @@ def generate_source_patches(
         linter_logger.debug("  %s Yielded patch: %s", idx, patch)
         _log_hints(patch, templated_file)
 
+        # A patch must refer to a real range of the source. Tokens which span
+        # a template loop or a whitespace-stripped tag don't map to a contiguous
+        # source range and can present a slice which ends before it starts.
+        # Applying such a patch would step backwards through the source and
+        # duplicate whatever lies in between, so it can't be used.
+        if patch.source_slice.start > patch.source_slice.stop:
+            linter_logger.info(
+                "      - Skipping patch with an invalid source slice: %s",
+                patch,
+            )
+            continue
+
         # Check for duplicates
         dedupe_tuple = patch.dedupe_tuple()
         if dedupe_tuple in dedupe_buffer:
